@@ -81,11 +81,59 @@ def bl5(ctx, R):
             "the length prefix of a string does not measure the encoded bytes appended after it (%s): non-ASCII text gets a wrong length" % detail[:160])
     # ---- (b) raw data index length, per path
     fi = prog.func("writer.TdmsSegment.raw_data_index")
-    paths = Sym(prog, fi).function_paths()
+    from .sym import simplify
+    import itertools
+    whole = Sym(prog, fi).function_value()
+
+    def atoms_of(v, out):
+        """atomic conditions of the conditionals in v"""
+        if isinstance(v, tuple) and v:
+            if v[0] == "phi":
+                def split(c):
+                    if isinstance(c, tuple) and c and c[0] in ("and", "or"):
+                        for y in c[1:]:
+                            split(y)
+                    elif isinstance(c, tuple) and c and c[0] == "not":
+                        split(c[1])
+                    elif isinstance(c, tuple) and c and c[0] == "cmp" and c[1] in ("is not", "!="):
+                        split(("cmp", "is" if c[1] == "is not" else "==", c[2], c[3]))
+                    elif c not in out:
+                        out.append(c)
+                split(v[1])
+            for y in v:
+                atoms_of(y, out)
+        return out
+
+    def flat_list(v):
+        if isinstance(v, tuple):
+            v = tuple(flat_list(y) for y in v)
+            if v and v[0] == "list":
+                items = []
+                for it in v[1]:
+                    if isinstance(it, tuple) and len(it) == 2 and it[0] == "splice" and isinstance(it[1], tuple) and it[1] and it[1][0] == "list":
+                        items += list(it[1][1])
+                    else:
+                        items.append(it)
+                return ("list", tuple(items))
+        return v
+    # only the conditions that shape the index (not those inside the size computation of the values)
+    atoms = [a for a in atoms_of(whole, []) if not contains(a, lambda x: isinstance(x, tuple) and x and x[0] == "bv")][:5]
+    paths = []
+    seen_vals = set()
+    for combo in itertools.product((True, False), repeat=len(atoms)):
+        asg = dict(zip(atoms, combo))
+        val = flat_list(simplify(whole, lambda c: asg.get(c)))
+        keyv = alpha(val)
+        if keyv in seen_vals:
+            continue
+        seen_vals.add(keyv)
+        paths.append((tuple(a if t else ("not", a) for a, t in asg.items()), val, asg))
     n_ret = 0
-    for guards, val, _env in paths:
+    for guards, val, asg in paths:
         gtxt = " and ".join(show(alpha(g)) for g in guards)
-        is_string_path = guards_say(guards, lambda c: contains(c, lambda x: x == ("class", "types.String")))
+        is_string_path = any(t and contains(a, lambda x: x == ("class", "types.String")) for a, t in asg.items())
+        if val is not None and val[0] == "list" and any(isinstance(it, tuple) and it and it[0] == "new" and it[1] == "types.Bytes" for it in val[1][:1]):
+            is_string_path = False
         if val is None or val[0] != "list":
             R.undecided("writer.TdmsSegment.raw_data_index::path [%s]" % gtxt[:60], fi.where(), "returned value is not a list literal on this path: %s" % (show(alpha(val))[:80] if val else None))
             continue
@@ -156,7 +204,12 @@ def bl5(ctx, R):
             "the bytes measured are the bytes written", "metadata() is called %d times: the measured and the written metadata can differ" % len(md_calls))
     sy = Sym(prog, fi, fi.cls)
     env = sy.env_at_end()
+    # the metadata list as the normal form of `self.metadata()` in write(): an opaque call when metadata() builds its list
+    # with loops, or whatever small expression it returns
     M = ("call", "writer.TdmsSegment.metadata", (), ())
+    if md_calls:
+        env_m, _gm = sy.env_at(md_calls[0])
+        M = sy.expr(md_calls[0], env_m)
     # the size handed to leadin()
     lead_calls = [c for c in walk_body(fi.node) if isinstance(c, ast.Call) and call_name(c) == "self.leadin"]
     if not lead_calls:
@@ -220,6 +273,7 @@ def bl5(ctx, R):
         return alpha(_subst(p, var, OBJ))
     sums = collect(DS, lambda x: isinstance(x, tuple) and x and x[0] == "sum" and x[3] == ("self", "objects"))
     p_size = norm_pred(sums[0][4], sums[0][2]) if sums else None
+    p_size_raw = _subst(sums[0][4], sums[0][2], OBJ) if sums else None
     # _write_data: loop over self.objects with a filter
     p_write = None
     for n in walk_body(wd_f.node):
@@ -245,15 +299,36 @@ def bl5(ctx, R):
             "declared and written data select the same objects of self.objects, in order (%s)" % (show(p_size)[:80] if p_size else None),
             "declared size sums objects selected by %s, data is written for objects selected by %s" % (show(p_size)[:100] if p_size else None, show(p_write)[:100] if p_write else None))
     # the index is present for exactly these objects
-    idx_guard = None
-    for guards, val, _e in paths:
-        if val is not None and val[0] == "list" and val[1] and val[1][0][0] == "new" and val[1][0][1] == "types.Uint32" and guards:
-            g0 = guards[0]
-            idx_guard = alpha((_subst(g0, ("param", rdi.params[1]), OBJ),))
-            break
-    R.check(idx_guard is not None and idx_guard == p_size, "writer.TdmsSegment.raw_data_index::same predicate", rdi.where(),
-            "the raw data index is present for exactly the objects whose data is written",
-            "the raw data index is present for objects selected by %s, the data writer uses %s" % (show(idx_guard)[:100] if idx_guard else None, show(p_size)[:100] if p_size else None))
+    from .sym import eval_cond
+    key = "writer.TdmsSegment.raw_data_index::same predicate"
+    if p_size is None:
+        R.undecided(key, rdi.where(), "the predicate that selects the objects whose data is written was not recognised")
+    else:
+        pobj = ("param", rdi.params[1])
+        disagree = unknown = None
+        for combo in itertools.product((True, False), repeat=len(atoms)):
+            asg = dict(zip(atoms, combo))
+            val = flat_list(simplify(whole, lambda c: asg.get(c)))
+            if not (val and val[0] == "list" and val[1] and val[1][0][0] == "new"):
+                unknown = "index form `%s` not understood" % show(alpha(val))[:80]
+                continue
+            present = val[1][0][1] == "types.Uint32"
+            vals = [eval_cond(_subst(c, OBJ, pobj), lambda c_: asg.get(c_)) for c in p_size_raw]
+            if any(x is None for x in vals) and not any(x is False for x in vals):
+                unknown = "the data predicate `%s` is not decided by the conditions of the index" % show(p_size)[:80]
+                continue
+            written = all(x is True for x in vals)
+            if written != present:
+                disagree = "for an object with %s the raw data index is %s but its data is %s" % (
+                    ", ".join("%s%s" % ("" if t else "not ", show(alpha(a))[:50]) for a, t in asg.items()), "present" if present else "absent",
+                    "written" if written else "not written")
+        if disagree:
+            R.violation(key, rdi.where(), disagree)
+        elif unknown:
+            R.undecided(key, rdi.where(), unknown)
+        else:
+            R.ok(key, rdi.where(), "the raw data index is present for exactly the objects whose data is written (%d combinations of %d conditions)" % (
+                2 ** len(atoms), len(atoms)))
     # per-object declared size: strings and fixed-size types
     ods = prog.func("writer.object_data_size")
     wsv = prog.func("writer.write_string_values")
@@ -651,7 +726,9 @@ def wt1(ctx, R):
             and dotted(c.func.value) == toc_arg.id and c.func.attr in ("remove", "append", "pop", "extend", "clear")]
     R.check(not muts, "writer.TdmsSegment.write::toc list unmodified", fi.where(), "flag list is a constant", "flag list is edited before use (%s)" % (unparse(muts[0]) if muts else ""))
     md = prog.func("writer.TdmsSegment.metadata")
-    loop_ok = any(isinstance(n, ast.For) and dotted(n.iter) == "self.objects" for n in walk_body(md.node))
+    from .region import region
+    loop_ok = any((isinstance(n, ast.For) and dotted(n.iter) == "self.objects") or (isinstance(n, ast.comprehension) and dotted(n.iter) == "self.objects")
+                  for f in region(ctx, md, depth=2) if f.cls is md.cls for n in ast.walk(f.node))
     R.check(loop_ok, "writer.TdmsSegment.metadata::all objects listed", md.where(), "metadata lists every object of the segment",
             "metadata does not iterate over all objects")
 
